@@ -27,23 +27,24 @@ class HShape2(fm.TimeComponent):
     def _next_time(self):
         return self.time + (day(1) - day(0))
 
-    def _info(self):
-        return fm.Info(time=self.time, grid=fm.NoGrid(), units="m")
+    def _info(self, static=False):
+        return fm.Info(time=None if static else self.time, grid=fm.NoGrid(), units="m")
 
     def _initialize(self):
         in_rules, out_rules, pulls = {}, {}, []
         for p, pt in enumerate(self.ports, start=1):
+            st = bool(pt.get("st"))
             if pt["hasin"]:
-                self.inputs.add(name=f"In{p}", info=self._info() if pt["inown"] else None)
+                self.inputs.add(name=f"In{p}", static=st, info=self._info(st) if pt["inown"] else None)
                 if not pt["inown"]:
                     in_rules[f"In{p}"] = [FromOutput(f"Out{p}")]
                 if pt["pull"]:
                     pulls.append(f"In{p}")
             if pt["hasout"]:
                 if pt["outown"]:
-                    self.outputs.add(name=f"Out{p}", info=self._info())
+                    self.outputs.add(name=f"Out{p}", static=st, info=self._info(st))
                 else:
-                    self.outputs.add(name=f"Out{p}")
+                    self.outputs.add(name=f"Out{p}", static=st)
                     out_rules[f"Out{p}"] = [FromInput(f"In{p}")]
         self.create_connector(pull_data=pulls, in_info_rules=in_rules or None, out_info_rules=out_rules or None)
 
